@@ -42,6 +42,8 @@ CHECKS = {
          "Held on API-built documents from the operation-script generator with a covering part in which each of 16 operation families dominates; differences are reported per element path."),
  "C04": ("exploration", "differential over harness-written foreign packages: parts byte-compared, content types and relationships compared semantically, run text ledger of the generator compared with the independently extracted text of the saved main part", "4/C04",
          "Held on generated foreign packages (arbitrary prefixes, wrappers around runs, extra parts with own relationships, media of any name) opened and saved with and without append-only edits."),
+ "C19": ("exploration", "crash/hang monitor + package monitor over hostile Markdown (inputs written to disk first) and token-sequence/formatting/structure comparison between the generator's block/inline tree and the converted document", "3.1, 3.4, 4/C19",
+         "Held on hostile byte strings and on Markdown generated from the listed constructs with unique word tokens, under all 64 option combinations and TOC levels 0-7."),
 }
 PENDING = {}
 ALL = ["C%02d" % i for i in range(1, 21)]
